@@ -32,6 +32,9 @@ type WaitCase struct {
 	Helper string   `json:"helper"`
 	States []string `json:"states"`
 	Args   bool     `json:"args"`
+	// Dispose: with Busy, a graceful Dispose starts while the helper is queued; the holder
+	// ends inside the grace window. Only "the helper returns" is judged then.
+	Dispose bool `json:"dispose,omitempty"`
 }
 
 func waitAskCase(c WaitCase, st *ev.Stats) error {
@@ -95,6 +98,14 @@ func waitAskCase(c WaitCase, st *ev.Stats) error {
 	if c.Busy {
 		// let the helper queue its mutation / check, then release the holder
 		time.Sleep(3 * time.Millisecond)
+		if c.Dispose {
+			dl := time.Now().Add(time.Second)
+			for m.QueueLen() == 0 && time.Now().Before(dl) {
+				time.Sleep(time.Millisecond)
+			}
+			m.Dispose()
+			time.Sleep(20 * time.Millisecond)
+		}
 		g.Release()
 		<-holderDone
 	}
@@ -114,6 +125,15 @@ func waitAskCase(c WaitCase, st *ev.Stats) error {
 			}
 		}
 		return fmt.Errorf("%s(%v) did not return within 8 s (busy=%v); queue tick %d len %d\n%s", c.Helper, states, c.Busy, m.QueueTick(), m.QueueLen(), strings.Join(keep, "\n\n"))
+	}
+	if c.Busy && c.Dispose {
+		if st != nil {
+			st.Eval(1)
+			st.Class("waitask:dispose-while-queued:" + c.Helper)
+			st.NonTrivial(fmt.Sprint(c.Key(), c.Helper, c.States, "dispose", c.Args))
+			st.Sample("waitask-dispose", 1, c)
+		}
+		return nil
 	}
 	// what actually happened: the helper's own transitions (non-auto, called == states)
 	want := model.NewSet(uniq(states))
@@ -257,6 +277,7 @@ func TestWaitAsk(t *testing.T) {
 		c.States = gen.Subset(t, sc.UserNames(), "states", false)
 		c.Busy = rapid.Bool().Draw(t, "busy")
 		c.Args = rapid.Bool().Draw(t, "args")
+		c.Dispose = c.Busy && rapid.IntRange(0, 15).Draw(t, "dispose") == 0
 		st.Journal(map[string]any{"kind": "waitask", "case": c})
 		if err := waitAskCase(c, st); err != nil {
 			ev.G().PinLast()
